@@ -61,6 +61,16 @@ var props = map[string]*propCfg{
 	},
 }
 
+func init() {
+	c01 := props["C01"]
+	for _, id := range []string{"C05", "C06"} {
+		c := *c01
+		c.QuickRuns, c.ThoroughRuns, c.RunsPerProc = 12000, 300000, 200
+		c.Rule = "one evaluation = one simulated run (modules with generated managed work items: workers, service workers, tasks, microtasks of every priority and variant, event hooks; drain delays; stop by Shutdown or management pass; post-stop submissions; seeded schedule); distinct = distinct hash of the normalised lifecycle + work-item history; non-trivial = at least 2 goroutine switches or a fault fired"
+		props[id] = &c
+	}
+}
+
 func env() []string {
 	e := os.Environ()
 	e = append(e, "GOFLAGS=-mod=mod", "GOPROXY=off", "GOSUMDB=off", "GOTOOLCHAIN=local", "GOMAXPROCS=2")
@@ -344,6 +354,7 @@ func check(args []string) {
 				mu.Unlock()
 				c := chunks[ci]
 				from := c.from
+				chunkCrashes := 0
 				for from < c.to {
 					out := filepath.Join(br.Scratch, fmt.Sprintf("sum-%d-%d.json", ci, from))
 					logp := filepath.Join(br.Scratch, fmt.Sprintf("log-%d-%d.txt", ci, from))
@@ -367,12 +378,11 @@ func check(args []string) {
 					}
 					if code != 0 {
 						// the worker process died in run s.Progress: an uncontained panic or fatal error
-						idx := from
-						if rerr == nil && s.Progress >= 0 {
-							idx = s.Progress
-						} else if rerr != nil {
-							// died before the first flush: attribute by bisecting single runs
-							idx = -1
+						idx := -1
+						if pb, perr := os.ReadFile(out + ".progress"); perr == nil {
+							if v, cerr := strconv.Atoi(strings.TrimSpace(string(pb))); cerr == nil {
+								idx = v
+							}
 						}
 						mu.Lock()
 						if rerr == nil {
@@ -381,8 +391,9 @@ func check(args []string) {
 						crashes = append(crashes, replayFile{Harness: pc.Harness, Property: id, Seed: seed, Run: idx, Tier: tier, Crash: true,
 							Class: id + ".process-died", Witness: "worker process terminated", Detail: tail(logp, 1500)})
 						mu.Unlock()
-						if idx < 0 {
-							return
+						chunkCrashes++
+						if idx < 0 || chunkCrashes >= 3 {
+							break
 						}
 						from = idx + 1
 						os.Remove(logp)
@@ -452,13 +463,15 @@ func check(args []string) {
 	if len(agg.Samples) > 3 {
 		agg.Samples = agg.Samples[:3]
 	}
-	if agg.Runs == 0 {
+	if agg.Runs == 0 && len(crashes) == 0 {
 		trouble("no simulated run completed")
 	}
 	for _, c := range crashes {
-		k := c.Class + "|" + c.Witness + fmt.Sprint(c.Run)
-		firstFail[k] = c
-		agg.FailCounts[c.Class+"|"+c.Witness]++
+		k := c.Class + "|" + c.Witness
+		if old, ok := firstFail[k]; !ok || (c.Run >= 0 && c.Run < old.Run) {
+			firstFail[k] = c
+		}
+		agg.FailCounts[k]++
 	}
 	// triage
 	kf := loadKnown()
@@ -694,7 +707,7 @@ func determinism(args []string) {
 						fs := strings.SplitN(line, " ", 2)
 						if len(fs) == 2 {
 							i, _ := strconv.Atoi(fs[0])
-							results[i] = append(results[i], fs[1])
+							results[i] = append(results[i], strings.TrimSpace(fs[1]))
 						}
 					}
 					mu.Unlock()
